@@ -156,7 +156,9 @@ def _run(ch, kind, k, window=0.0, variant="blackout"):
             return None
 
         rig.net.fates = fates
-    if variant in ("blackout", "yielding-client"):
+    if variant == "config-poke":
+        pass  # healthy network, no scripted traffic
+    elif variant in ("blackout", "yielding-client"):
         # the baseline has a blackout after 150 s of steady state
         rig.loop.call_at(rig.loop.time() + 150.0, lambda: rig.peer.set_mode("blackout"))
     else:
@@ -169,7 +171,19 @@ def _run(ch, kind, k, window=0.0, variant="blackout"):
             rig.loop.call_at(rig.loop.time() + 0.5, noise)
 
         rig.loop.call_at(rig.loop.time() + 5.0, noise)
-    if window > 0 and k > 150:
+    if variant == "config-poke":
+        # something re-installs the configuration table at loop step k (the facade does so on every device change and on
+        # every update round): every config_sleep sleeper - the tidy loop among them - wakes in that very iteration; then
+        # the connection completes and is reset
+        import geckolib.config as gconfig
+        done = rig.loop.run_steps(k)
+        if done == k:
+            with rig.loop.running():
+                if gconfig.ConfigChange is not None:
+                    gconfig.set_config_mode(False)
+            rig.loop.run_for(200.0, lambda: rig.man.spa_state == S.CONNECTED)
+            rig.loop.run_for(5.0)
+    elif window > 0 and k > 150:
         # wake-up jitter: the last 150 loop steps BEFORE the injection run with timer-order choices, so the
         # injection lands in differently interleaved states
         done = rig.loop.run_steps(k - 150)
@@ -510,6 +524,8 @@ def run(ctx):
     # fifth baseline: connection attempts that die in the parser (corrupted config-file answer), reset/exit afterwards
     jobs += [((kind, k, 0.0, "corrupt-files"), ()) for kind in ("reset", "exit")
              for k in range(marks.get("CONNECTING", 50), marks.get("CONNECTED", 700) + 900, 5 if ctx.quick else 1)]
+    # sixth baseline: the configuration table re-installed at every step of the handshake, reset once connected
+    jobs += [(("reset", k, 0.0, "config-poke"), ()) for k in range(0, marks.get("CONNECTED", 700) + 5, 1)]
     # fourth baseline: a failed datagram send in steady state, then reset/exit at steps from the failure on (strided)
     jobs += [((kind, k, 0.0, "send-error"), ()) for kind in ("reset", "exit") for k in range(n2[0] - 40, n2[0] + 9000, 331 if ctx.quick else 97)]
     by_state = {}
